@@ -33,10 +33,10 @@ inductive KeygenWrites (out : ζ) : List ι → τ → τ → Prop
       KeygenWrites out (id :: rest) t t'
 
 theorem keygen_convert_loop_nil (out : ζ) (t : τ) :
-    main_convert_loop1 isX Rc F out [] t = .ok (.next t) := rfl
+    keygen_convert_loop1 isX Rc F out [] t = .ok (.next t) := rfl
 
 theorem keygen_convert_loop_cons (out : ζ) (x : ι) (rest : List ι) (t : τ) :
-    main_convert_loop1 isX Rc F out (x :: rest) t =
+    keygen_convert_loop1 isX Rc F out (x :: rest) t =
       if isX x = true then
         match Rc x t with
         | Except.error err => Except.error err
@@ -44,7 +44,7 @@ theorem keygen_convert_loop_cons (out : ζ) (x : ι) (rest : List ι) (t : τ) :
           match F out fmtLine v.fst v.snd with
           | Except.error err => Except.error err
           | Except.ok w =>
-            if w.2.1 = none then main_convert_loop1 isX Rc F out rest w.snd.snd
+            if w.2.1 = none then keygen_convert_loop1 isX Rc F out rest w.snd.snd
             else .error (.panic 1003)
       else .error (.panic 1002) := by
   show _ = if isX x = true then
@@ -54,12 +54,12 @@ theorem keygen_convert_loop_cons (out : ζ) (x : ι) (rest : List ι) (t : τ) :
           match F out [37, 115, 10] v.fst v.snd with
           | Except.error err => Except.error err
           | Except.ok w =>
-            if w.2.1 = none then main_convert_loop1 isX Rc F out rest w.snd.snd
+            if w.2.1 = none then keygen_convert_loop1 isX Rc F out rest w.snd.snd
             else .error (.panic 1003)
       else .error (.panic 1002)
   cases hx : isX x
-  · simp only [main_convert_loop1, bind, Except.bind, hx]; rfl
-  · simp only [main_convert_loop1, bind, Except.bind, hx]
+  · simp only [keygen_convert_loop1, bind, Except.bind, hx]; rfl
+  · simp only [keygen_convert_loop1, bind, Except.bind, hx]
     cases hr : Rc x t with
     | error e => rfl
     | ok v =>
@@ -71,7 +71,7 @@ theorem keygen_convert_loop_cons (out : ζ) (x : ι) (rest : List ι) (t : τ) :
         | some e => simp [h, hf]; rfl
 
 theorem keygen_convert_loop_iff (out : ζ) (ids : List ι) : ∀ (t : τ) (r : Go.Loop τ τ),
-    main_convert_loop1 isX Rc F out ids t = .ok r ↔
+    keygen_convert_loop1 isX Rc F out ids t = .ok r ↔
       ∃ t', r = .next t' ∧ (∀ id ∈ ids, isX id = true) ∧ KeygenWrites Rc F out ids t t' := by
   induction ids with
   | nil =>
@@ -146,18 +146,18 @@ theorem keygen_convert_loop_iff (out : ζ) (ids : List ι) : ∀ (t : τ) (r : G
                 exact ⟨t', hr', fun id hid => hall id (List.mem_cons_of_mem _ hid), h3⟩
 
 theorem keygen_convert_eq (inp : Bytes) (out : ζ) (t0 : τ) :
-    main_convert PI isX Rc F inp out t0 =
+    keygen_convert PI isX Rc F inp out t0 =
       match PI inp t0 with
       | .error e => .error e
       | .ok p =>
         if p.2.1 = none then
           if p.1 = [] then .error (.panic 1001)
-          else match main_convert_loop1 isX Rc F out p.1 p.2.2 with
+          else match keygen_convert_loop1 isX Rc F out p.1 p.2.2 with
             | .error e => .error e
             | .ok (.ret v) => .ok v
             | .ok (.next t) => .ok t
         else .error (.panic 1000) := by
-  simp only [main_convert, bind, Except.bind, pure, Except.pure]
+  simp only [keygen_convert, bind, Except.bind, pure, Except.pure]
   cases hp : PI inp t0 with
   | error e => rfl
   | ok p =>
@@ -171,13 +171,13 @@ theorem keygen_convert_eq (inp : Bytes) (out : ζ) (t0 : τ) :
         have : (Go.len (x :: rest) == (0:Int)) = false := by
           simp [Go.len]; omega
         simp [this]
-        generalize main_convert_loop1 isX Rc F out (x :: rest) t1 = L
+        generalize keygen_convert_loop1 isX Rc F out (x :: rest) t1 = L
         cases L with
         | error e => rfl
         | ok v => cases v <;> rfl
 
 theorem keygen_convert_returns_iff (inp : Bytes) (out : ζ) (t0 t' : τ) :
-    main_convert PI isX Rc F inp out t0 = .ok t' ↔
+    keygen_convert PI isX Rc F inp out t0 = .ok t' ↔
       ∃ ids t1, PI inp t0 = .ok (ids, none, t1) ∧ ids ≠ [] ∧ (∀ id ∈ ids, isX id = true) ∧
         KeygenWrites Rc F out ids t1 t' := by
   rw [keygen_convert_eq]
@@ -205,7 +205,7 @@ theorem keygen_convert_returns_iff (inp : Bytes) (out : ζ) (t0 t' : τ) :
       · simp only [hids, if_false]
         constructor
         · intro h
-          cases hl : main_convert_loop1 isX Rc F out ids t1 with
+          cases hl : keygen_convert_loop1 isX Rc F out ids t1 with
           | error e => rw [hl] at h; cases h
           | ok r =>
             rw [hl] at h
@@ -218,9 +218,9 @@ theorem keygen_convert_returns_iff (inp : Bytes) (out : ζ) (t0 t' : τ) :
 
 theorem keygen_convert_loop_exits (out : ζ)
     (hRc : ∀ i t, ∃ r, Rc i t = .ok r) (hF : ∀ o f r t, ∃ x, F o f r t = .ok x) (ids : List ι) : ∀ t : τ,
-    (∃ t', main_convert_loop1 isX Rc F out ids t = .ok (.next t')) ∨
-      main_convert_loop1 isX Rc F out ids t = .error (.panic 1002) ∨
-      main_convert_loop1 isX Rc F out ids t = .error (.panic 1003) := by
+    (∃ t', keygen_convert_loop1 isX Rc F out ids t = .ok (.next t')) ∨
+      keygen_convert_loop1 isX Rc F out ids t = .error (.panic 1002) ∨
+      keygen_convert_loop1 isX Rc F out ids t = .error (.panic 1003) := by
   induction ids with
   | nil => intro t; exact .inl ⟨t, rfl⟩
   | cons x rest ih =>
@@ -244,8 +244,8 @@ theorem keygen_convert_loop_exits (out : ζ)
     faults): it never fails in another way -/
 theorem keygen_convert_exits (inp : Bytes) (out : ζ) (t0 : τ)
     (hPI : ∀ b t, ∃ r, PI b t = .ok r) (hRc : ∀ i t, ∃ r, Rc i t = .ok r) (hF : ∀ o f r t, ∃ x, F o f r t = .ok x) :
-    (∃ t', main_convert PI isX Rc F inp out t0 = .ok t') ∨
-      ∃ k, k < 4 ∧ main_convert PI isX Rc F inp out t0 = .error (.panic (1000 + k)) := by
+    (∃ t', keygen_convert PI isX Rc F inp out t0 = .ok t') ∨
+      ∃ k, k < 4 ∧ keygen_convert PI isX Rc F inp out t0 = .error (.panic (1000 + k)) := by
   rw [keygen_convert_eq]
   obtain ⟨p, hp⟩ := hPI inp t0
   rw [hp]
@@ -297,8 +297,8 @@ theorem fmtKeyFile_eq : fmtKeyFile = [35, 32, 99, 114, 101, 97, 116, 101, 100, 5
   decide +kernel
 
 theorem keygen_generate_tie (out : ζ) (t0 : τ) :
-    main_generate G Fd IsT stderr Rc F1 Fmt Now F2 out t0 = generateModel G Fd IsT stderr Rc F1 Fmt Now F2 out t0 := by
-  simp only [main_generate, generateModel, fmtPublic_eq, fmtRFC3339_eq, fmtKeyFile_eq, bind, Except.bind, pure, Except.pure]
+    keygen_generate G Fd IsT stderr Rc F1 Fmt Now F2 out t0 = generateModel G Fd IsT stderr Rc F1 Fmt Now F2 out t0 := by
+  simp only [keygen_generate, generateModel, fmtPublic_eq, fmtRFC3339_eq, fmtKeyFile_eq, bind, Except.bind, pure, Except.pure]
   cases hg : G t0 with
   | error e => rfl
   | ok g =>
@@ -334,7 +334,7 @@ theorem keygen_bind_ok {α β : Type} {x : Go.M α} {f : α → Go.M β} {y : β
 
 /-- `generate` returns only if the key pair was generated and the ONE write of the key file text reported success -/
 theorem keygen_generate_returns (out : ζ) (t0 t' : τ)
-    (h : main_generate G Fd IsT stderr Rc F1 Fmt Now F2 out t0 = .ok t') :
+    (h : keygen_generate G Fd IsT stderr Rc F1 Fmt Now F2 out t0 = .ok t') :
     ∃ k t1, G t0 = .ok (k, none, t1) ∧
       ∃ (ts : Bytes) (rc : ρ) (t2 : τ) (n : Int), F2 out fmtKeyFile ts rc k t2 = .ok (n, none, t') := by
   rw [keygen_generate_tie] at h
